@@ -260,6 +260,7 @@ class Engine:
 		self.specns = {}
 		self.class_of_kind = {}
 		self.axioms_used = set()
+		self.inlined_without_contract = set()
 
 	def isinstance(self, st, v, T):
 		"""isinstance(v, T) for the modelled classes: decided from the value's representation."""
@@ -1852,7 +1853,9 @@ class Engine:
 			self_val = ClassRef(qualname.rsplit('.', 1)[0])
 		if c is None or c.inline:
 			if c is None and qualname not in self.registry.inline:
-				raise Unsupported(f'call of {qualname} which has neither a contract nor an inline mark (line {node.lineno})')
+				# a repository function without a contract (e.g. a helper introduced by a refactoring): its real body is
+				# executed symbolically in place, which is sound; it is listed in the evidence
+				self.inlined_without_contract.add(qualname)
 			yield from self.inline_call(st, fi.node, fi, args, kwargs, node, self_val=self_val)
 			return
 		bound = self._eval_defaults(st, self.bind_args(fi.node, args, kwargs, self_val))
@@ -2225,12 +2228,23 @@ class Engine:
 			yield from self._comp_symbolic(node, g, s2, itv, kind)
 
 	def _comp_symbolic(self, node, g, st, itv, kind):
-		"""[elt for target in <symbolic sequence>]: the element expression is evaluated once at a generic index j;
-		the result is a fresh sequence R with  forall j in range. exists <values created for this element>.
-		<facts assumed while evaluating it> and R[j] == elt.  Obligations raised while evaluating the element are
-		proved for the arbitrary j.  Filters, several outcomes, or effects on existing objects are outside the subset."""
+		"""[elt for target in <symbolic sequence>]: see generic_map"""
 		if g.ifs or kind != 'list':
 			raise Unsupported('filtered / set comprehension over a symbolic sequence')
+
+		def elem(s1, item):
+			for sb, r in self.assign(g.target, item, s1):
+				if isinstance(r, Raised):
+					raise Unsupported('comprehension target unpacking may raise')
+				yield from self.ev(node.elt, sb)
+		yield from self.generic_map(st, itv, elem, node)
+
+	def generic_map(self, st, itv, elem, node):
+		"""Element-wise construction of a list from a symbolic sequence: the element computation is evaluated once at
+		a generic index j; the result is a fresh sequence R with  forall j in range. exists <values created for this
+		element>. <facts assumed while evaluating it> and R[j] == element.  Obligations raised while evaluating the
+		element are proved for the arbitrary j.  Several normal outcomes, or effects on existing objects, are outside
+		the subset."""
 		start, stop = self._iter_bounds(itv)
 		start, stop = int_term(start), int_term(stop)
 		j = z3.Int(fresh_name('cj'))
@@ -2242,25 +2256,22 @@ class Engine:
 		saved_env = dict(s1.env)
 		outs = []
 		for sa, item in self._iter_item(s1, itv, SInt(j)):
-			for sb, r in self.assign(g.target, item, sa):
-				if isinstance(r, Raised):
-					raise Unsupported('comprehension target unpacking may raise')
-				for sc, v in self.ev(node.elt, sb):
-					outs.append((sc, v))
+			for sc, v in elem(sa, item):
+				outs.append((sc, v))
 		normal = [(s, v) for s, v in outs if not isinstance(v, Raised)]
 		raised = [(s, v) for s, v in outs if isinstance(v, Raised)]
 		for s, v in raised:
-			# an element that raises makes the whole comprehension raise
+			# an element that raises makes the whole construction raise
 			s.env = dict(saved_env)
 			yield s, v
 		if len(normal) != 1:
 			if not normal:
 				return
-			raise Unsupported(f'comprehension element has {len(normal)} outcomes (line {node.lineno})')
+			raise Unsupported(f'element computation has {len(normal)} outcomes (line {getattr(node, "lineno", "?")})')
 		s2, v = normal[0]
 		for addr, c in heap0.items():
 			if s2.heap.get(addr) is not c:
-				raise Unsupported('comprehension element modifies an existing object')
+				raise Unsupported('element computation modifies an existing object')
 		T = self._elem_type(s2, v)
 		term = T.unwrap(self.to_elem(s2, T, v))
 		facts = s2.pc[pc0:]
@@ -2284,7 +2295,7 @@ class Engine:
 					m = _re.search(r'!(\d+)$', d.name())
 					if m and int(m.group(1)) > mark:
 						if e.num_args() > 0:
-							raise Unsupported('comprehension element introduces a ghost function')
+							raise Unsupported('element computation introduces a ghost function')
 						newc.append(e)
 				for c in e.children():
 					collect(c)
